@@ -138,6 +138,21 @@ pub fn rest_palette() -> Vec<Vec<(RLabel, Item)>> {
         vec![(l_text("a"), NULL), (l_int(-1), u(1))],
         vec![(l_int(-1), u(1)), (l_text("a"), NULL)],
         vec![(l_int(300), arr(vec![u(1), map(vec![(u(2), u(1)), (u(1), u(2))])])), (l_int(0), TRUE), (l_int(-70000), Item::float(1.5))],
+        // a dozen extras in no sorted order (any per-size strategy switch in the encoder sees both sides)
+        vec![
+            (l_text("zz"), u(0)),
+            (l_int(1000), u(1)),
+            (l_int(-1), u(2)),
+            (l_text("a"), u(3)),
+            (l_int(99), u(4)),
+            (l_int(-70000), u(5)),
+            (l_int(24), u(6)),
+            (l_text(""), u(7)),
+            (l_int(65536), u(8)),
+            (l_int(-25), u(9)),
+            (l_int(8), u(10)),
+            (l_text("b"), u(11)),
+        ],
     ]
 }
 
